@@ -16,18 +16,18 @@ TRUSTED = (
 
 CLAIMS = {
     "C01": dict(
-        technique="static analysis: who-may-write (encapsulation) check over the resolved program + paired-update obligation walk (relational deltas with accumulator summaries, exceptional exits per iteration, finally blocks) over every path of every writer method",
-        text="Decides the inductive step of the incidence invariant by static analysis: only methods of the core classes write the four tables (R-ENC), and on every normal and exceptional exit of every writer method of Hypergraph each edge-side gain/loss is paired with the node-side one, each new key has its attribute record, every member is a registered node, and a store never replaces an entry whose key may already exist (three-valued key presence) (R-ATTR/R-INC/R-EXISTS/R-EXIT/R-EXC/R-ONCE); in-place set operators on stored member sets, sets accumulated over loop iterations, finally blocks and exceptions between iterations are modelled; the per-site counter rules of C04 are checked for this class as the premise that automatic keys are new. Which edit is performed is not decided (C05).",
+        technique="static analysis: who-may-write (encapsulation) check over the resolved program + paired-update obligation walk (relational deltas with accumulator summaries, exceptional exits per iteration, finally blocks) over every path of every writer method; alias variants (two ID parameters bound to one ID) and size comparisons of local copies as membership formulas; R-SHARE one-object-per-entry lint",
+        text="Decides the inductive step of the incidence invariant by static analysis: only methods of the core classes write the four tables (R-ENC), and on every normal and exceptional exit of every writer method of Hypergraph each edge-side gain/loss is paired with the node-side one, each new key has its attribute record, every member is a registered node, and a store never replaces an entry whose key may already exist (three-valued key presence) (R-ATTR/R-INC/R-EXISTS/R-EXIT/R-EXC/R-ONCE); in-place set operators on stored member sets, sets accumulated over loop iterations, finally blocks and exceptions between iterations are modelled; the per-site counter rules of C04 are checked for this class as the premise that automatic keys are new. Which edit is performed is not decided (C05). Calls that hand the same ID to two parameters are analysed as separate variants; `len(copy) != len(entry)` guards are interpreted as formulas over membership atoms; no container object is stored under two keys (R-SHARE).",
         ref="3 C01",
     ),
     "C02": dict(
-        technique="static analysis: paired-update obligation walk with tail/head <-> out/in side pairing over every path of every DiHypergraph writer",
-        text="Same inductive argument as C01 for DiHypergraph with sides: edge 'in' (tail) pairs with node 'out', edge 'out' (head) with node 'in'; every writer method is checked on all normal and exceptional exits (including an exception in a later iteration of a loop whose effects are only settled after it), including strong node removal; in/out literals chosen per branch are followed by tail duplication.",
+        technique="static analysis: paired-update obligation walk with tail/head <-> out/in side pairing over every path of every DiHypergraph writer; alias variants; R-SHARE",
+        text="Same inductive argument as C01 for DiHypergraph with sides: edge 'in' (tail) pairs with node 'out', edge 'out' (head) with node 'in'; every writer method is checked on all normal and exceptional exits (including an exception in a later iteration of a loop whose effects are only settled after it), including strong node removal; in/out literals chosen per branch are followed by tail duplication. Alias variants and R-SHARE as in C01.",
         ref="3 C02",
     ),
     "C03": dict(
-        technique="static analysis: guard-dominance and must-pass-through queries on the CFG of every simplex insertion/removal site",
-        text="Decides that every insertion of a simplex is dominated by the duplicate, emptiness and existing-ID guards, is followed on every path by scheduling of all its faces through guarded face insertion, is bounded by max_order (which is compared with None, never tested for truthiness: 0 is a limit), stores frozensets, and that removal removes all strict supersets first. Value-level facts about which faces exist are not decided.",
+        technique="static analysis: guard-dominance and must-pass-through queries on the CFG of every simplex insertion/removal site; R-SHARE",
+        text="Decides that every insertion of a simplex is dominated by the duplicate, emptiness and existing-ID guards, is followed on every path by scheduling of all its faces through guarded face insertion, is bounded by max_order (which is compared with None, never tested for truthiness: 0 is a limit), stores frozensets, and that removal removes all strict supersets first. Value-level facts about which faces exist are not decided. No container object is stored under two keys (R-SHARE).",
         ref="3 C03",
     ),
     "C04": dict(
@@ -36,18 +36,18 @@ CLAIMS = {
         ref="3 C04",
     ),
     "C05": dict(
-        technique="static analysis: raise-site classification, validate-before-write ordering at every explicit rejection, effect footprint of swap/shuffle/clear, dead-parameter liveness analysis, IDDict override table vs dict-method call sites",
-        text="Narrow: decides (a) that edits rejected for a missing/invalid ID raise the library's own error type at every explicit raise and every caller-keyed plain-container access, (b) that double_edge_swap and random_edge_shuffle insert/delete no key and touch no attribute or counter, (c) that aliases and thin wrappers forward every parameter, (d) that every explicit rejection (raise statement) in a mutator is reached before any table write of the rejected item, (e) that direction 'in'/'out' edits the tail/head side, clear()/clear_edges() have exactly their documented table footprint, update() forwards what it is given, the 'first' options of merge_duplicate_edges pick the smallest ID, no keyed dict method that IDDict does not override is used on a table without a guard, and every parameter of every method can influence what it does (dead-parameter analysis). Equality with a reference model after edit sequences is NOT decided.",
+        technique="static analysis: raise-site classification, validate-before-write ordering at every explicit rejection, effect footprint of swap/shuffle/clear, dead-parameter liveness analysis, IDDict override table vs dict-method call sites; CFG order and guard table of the cleanup steps",
+        text="Narrow: decides (a) that edits rejected for a missing/invalid ID raise the library's own error type at every explicit raise and every caller-keyed plain-container access, (b) that double_edge_swap and random_edge_shuffle insert/delete no key and touch no attribute or counter, (c) that aliases and thin wrappers forward every parameter, (d) that every explicit rejection (raise statement) in a mutator is reached before any table write of the rejected item, (e) that direction 'in'/'out' edits the tail/head side, clear()/clear_edges() have exactly their documented table footprint, update() forwards what it is given, the 'first' options of merge_duplicate_edges pick the smallest ID, no keyed dict method that IDDict does not override is used on a table without a guard, and every parameter of every method can influence what it does (dead-parameter analysis). Equality with a reference model after edit sequences is NOT decided. The step order and flag guards of cleanup (rules Q-ORDER / Q-FLAG / Q-COPY of C19) are checked as part of the documented effect of that edit.",
         ref="3 C05",
     ),
     "C06": dict(
-        technique="static analysis: alias analysis of view bindings, who-may-rebind the tables, no-memoisation lint, order-provenance tags, filter mode/operator table extraction, dead-parameter liveness analysis, side-literal table for directed statistics, zero-count pattern lints with embedded positive examples",
-        text="Decides the mechanisms that make views and statistics live and ordered: views alias the live tables, tables are never rebound outside __init__/__setstate__, nothing is memoised, every ordered output follows the view, filter modes map to their comparison operators, view methods forward every parameter, from_view binds all table references, directed totals are sizes of unions (never sums of the two sides), one-sided directed statistics read their own side, stored attribute values are never replaced by a default through truthiness, and every parameter of every view method / stat function is live. Numerical definitions of statistics are not decided.",
+        technique="static analysis: alias analysis of view bindings, who-may-rebind the tables, no-memoisation lint, order-provenance tags, filter mode/operator table extraction, dead-parameter liveness analysis, side-literal table for directed statistics, zero-count pattern lints with embedded positive examples; who-may-bind check of a view's ID list",
+        text="Decides the mechanisms that make views and statistics live and ordered: views alias the live tables, tables are never rebound outside __init__/__setstate__, nothing is memoised, every ordered output follows the view, filter modes map to their comparison operators, view methods forward every parameter, from_view binds all table references, directed totals are sizes of unions (never sums of the two sides), one-sided directed statistics read their own side, stored attribute values are never replaced by a default through truthiness, and every parameter of every view method / stat function is live. Numerical definitions of statistics are not decided. Only IDView.__init__ and from_view bind a view's ID list, and no view is constructed with an explicit ID list elsewhere (V-IDS), so every derived view is validated and in network order.",
         ref="3 C06",
     ),
     "C07": dict(
-        technique="static analysis: escape/alias analysis with copy barriers at every network-to-network transfer, pickle state-table agreement",
-        text="Decides independence and completeness of transferred state for copy(), pickle and the network-to-network constructor branches: every flow from the source network into the new one passes a copy barrier (deep for attributes in copy(); member tables filled directly must be fresh down to the member sets), getstate/setstate/__init__ agree on the attribute set, the counter is copied. Equality of copied values is not decided.",
+        technique="static analysis: escape/alias analysis with copy barriers at every network-to-network transfer, pickle state-table agreement; per-site counter rules of all classes and package-wide who-may-write check as premises",
+        text="Decides independence and completeness of transferred state for copy(), pickle and the network-to-network constructor branches: every flow from the source network into the new one passes a copy barrier (deep for attributes in copy(); member tables filled directly must be fresh down to the member sets), getstate/setstate/__init__ agree on the attribute set, the counter is copied. Equality of copied values is not decided. The bulk adders the constructors rebuild through pass the counter beyond every transferred ID (U-GUARD / U-BUMP at every insertion site of the three classes) and nothing outside the classes fills a network's tables (R-ENC).",
         ref="3 C07",
     ),
     "C08": dict(
@@ -56,23 +56,23 @@ CLAIMS = {
         ref="3 C08",
     ),
     "C09": dict(
-        technique="static analysis: ID/position kind inference (abstract interpretation) over every subscript of the algorithm, linalg and stats modules",
-        text="Decides the addressing discipline behind relabelling invariance: a label is never used as a position in a positional container nor a position as a label in an ID-keyed map, every matrix builder numbers its rows/columns in view order (callers use matrices without their index maps), positionally paired sequences have the same order provenance, tuples out of combination-style enumerations are made canonical before they serve as identities, and pairs drawn with combinations() from a member set are not recorded with an orientation (K-PAIR). Numerical invariance itself is not decided.",
+        technique="static analysis: ID/position kind inference (abstract interpretation) over every subscript of the algorithm, linalg and stats modules; order provenance of index maps (K-ORD) and permutation-labelled networks (K-PERM)",
+        text="Decides the addressing discipline behind relabelling invariance: a label is never used as a position in a positional container nor a position as a label in an ID-keyed map, every matrix builder numbers its rows/columns in view order (callers use matrices without their index maps), positionally paired sequences have the same order provenance, tuples out of combination-style enumerations are made canonical before they serve as identities, and pairs drawn with combinations() from a member set are not recorded with an orientation (K-PAIR). Numerical invariance itself is not decided. A position map numbering one sequence is never applied to a sequence listing another (K-ORD); a network whose labels are only known to be a permutation of 0..n-1 is never paired positionally with a label-indexed vector (K-PERM).",
         ref="3 C09",
     ),
     "C10": dict(
-        technique="static analysis: writer/reader key-table extraction and comparison, sibling-branch footprint cross-check, role-by-test and arc-orientation rules, forward taint from NumPy arrays to ID sinks, provenance resolution of IDs through helpers, dead-parameter liveness analysis, key-domain analysis of regrouping maps",
-        text="Narrow: decides that the dict-format writers and readers agree on keys and enumerations (incl. direction literals), that all class-to-class converter branches transfer nodes, edges and network attributes, that bipartite endpoints are classified by a test, not by position, and that the direction of every membership read from a DiGraph is taken from the orientation of the arc being enumerated (the writer uses the opposite convention consistently), that no label reaches a network-building call or a returned table after a detour through a NumPy array built from the labels, that every parameter of every converter can influence its result (dead-parameter analysis), and that sibling maps filled under different conditions are read over the union of their keys (T-DOM). Round-trip equality of values is NOT decided.",
+        technique="static analysis: writer/reader key-table extraction and comparison, sibling-branch footprint cross-check, role-by-test and arc-orientation rules, forward taint from NumPy arrays to ID sinks, provenance resolution of IDs through helpers, dead-parameter liveness analysis, key-domain analysis of regrouping maps; writer/reader arc-orientation agreement by enumeration and guard, through inlined statement helpers",
+        text="Narrow: decides that the dict-format writers and readers agree on keys and enumerations (incl. direction literals), that all class-to-class converter branches transfer nodes, edges and network attributes, that bipartite endpoints are classified by a test, not by position, and that the direction of every membership read from a DiGraph is taken from the orientation of the arc being enumerated (the writer uses the opposite convention consistently), that no label reaches a network-building call or a returned table after a detour through a NumPy array built from the labels, that every parameter of every converter can influence its result (dead-parameter analysis), and that sibling maps filled under different conditions are read over the union of their keys (T-DOM). Round-trip equality of values is NOT decided. On the writer side of the bipartite graph, arcs written while enumerating tail|head must be decided by a positive test against the matching side (a node in both tail and head keeps both arcs).",
         ref="3 C10",
     ),
     "C11": dict(
-        technique="static analysis: delegation/forwarding checks on every reader/writer, delimiter symmetry, array-rank fact propagation, serialise-before-open and write-after-serialise dominance on the CFG, provenance resolution of parsed fields, memo-key completeness, writer/reader mode agreement, dead-parameter liveness analysis",
-        text="Narrow: decides that each read_*/write_* pair goes through the paired converters, forwards every parameter, joins and splits on the received delimiter (which is never rebound), forces text matrices two-dimensional, serialises before opening the file, casts node and edge fields of the text parsers with their own type from their own column (followed through helpers), keys any conversion memo by everything the stored value depends on, opens text formats in the same mode family on both sides, writes every serialised record and every member of a collection to the file whose relative path it records (followed through os.path.join and name-building helpers; the dataset name reaches the file name without a lossy transformation), stores the literal the reader dispatches on, and keeps every parameter of every reader/writer live. Round-trip equality of values is NOT decided.",
+        technique="static analysis: delegation/forwarding checks on every reader/writer, delimiter symmetry, array-rank fact propagation, serialise-before-open and write-after-serialise dominance on the CFG, provenance resolution of parsed fields, memo-key completeness, writer/reader mode agreement, dead-parameter liveness analysis; orientation-preserving load of incidence matrices",
+        text="Narrow: decides that each read_*/write_* pair goes through the paired converters, forwards every parameter, joins and splits on the received delimiter (which is never rebound), forces text matrices two-dimensional, serialises before opening the file, casts node and edge fields of the text parsers with their own type from their own column (followed through helpers), keys any conversion memo by everything the stored value depends on, opens text formats in the same mode family on both sides, writes every serialised record and every member of a collection to the file whose relative path it records (followed through os.path.join and name-building helpers; the dataset name reaches the file name without a lossy transformation), stores the literal the reader dispatches on, and keeps every parameter of every reader/writer live. Round-trip equality of values is NOT decided. A loaded incidence matrix keeps its orientation: only the loader's ndmin=2 is accepted, atleast_2d after a squeezing load is reported.",
         ref="3 C11",
     ),
     "C12": dict(
-        technique="static analysis: ID/position kind inference on matrix builders, index-map provenance (view-order placement), definite assignment in degenerate branches, sparse/dense sibling dtype agreement, filtering-history signatures of zipped sequences, dead-parameter liveness analysis",
-        text="Narrow: decides that rows/columns are addressed through index maps (never labels), that returned maps derive from the map that placed the entries and that this map numbers a view in view order, that degenerate-shape branches assign their result on every path, that the sparse and dense constructions of one builder use the same element type, that stored weights are never replaced by a default through truthiness, that sequences consumed pairwise were filtered identically, that the adjacency tensor is populated idempotently (repeated edges do not add up), and that every parameter of every builder is live. Numerical equality with textbook definitions is NOT decided.",
+        technique="static analysis: ID/position kind inference on matrix builders, index-map provenance (view-order placement), definite assignment in degenerate branches, sparse/dense sibling dtype agreement, filtering-history signatures of zipped sequences, dead-parameter liveness analysis; CFG dominance of the threshold comparison over any collapse of the counts",
+        text="Narrow: decides that rows/columns are addressed through index maps (never labels), that returned maps derive from the map that placed the entries and that this map numbers a view in view order, that degenerate-shape branches assign their result on every path, that the sparse and dense constructions of one builder use the same element type, that stored weights are never replaced by a default through truthiness, that sequences consumed pairwise were filtered identically, that the adjacency tensor is populated idempotently (repeated edges do not add up), and that every parameter of every builder is live. Numerical equality with textbook definitions is NOT decided. In builders with a threshold s the counts are compared with s before they are collapsed to 0/1 on every path (M-THRESH).",
         ref="3 C12",
     ),
     "C13": dict(
@@ -86,23 +86,23 @@ CLAIMS = {
         ref="3 C16",
     ),
     "C17": dict(
-        technique="static analysis: interprocedural RNG-family analysis (which generator every draw uses, whether seed reaches it) with dominance of seeding over draws",
-        text="Decides that every random family a seeded public function may draw from, transitively, is seeded from its seed parameter (or receives it), that seeding dominates every draw, and that the seeding guard is `is not None`. Sound relative to the third-party table of stochastic callees.",
+        technique="static analysis: interprocedural RNG-family analysis (which generator every draw uses, whether seed reaches it) with dominance of seeding over draws; reaching definitions of generator objects, draw-function aliases and seeding coverage modulo seed-is-None paths",
+        text="Decides that every random family a seeded public function may draw from, transitively, is seeded from its seed parameter (or receives it), that seeding dominates every draw, and that the seeding guard is `is not None`. Sound relative to the third-party table of stochastic callees. Generator objects and aliases of draw functions are followed by reaching definitions: an unseeded binding may reach a draw only on paths that establish seed is None; seeding must cover every other path.",
         ref="3 C17",
     ),
     "C18": dict(
-        technique="static analysis: interprocedural may-write analysis with the receiver marked frozen (freeze-list completeness), dominance of freeze() in subhypergraph",
-        text="Decides that every public method of the three classes not shadowed by freeze(), and every public library function handed a frozen network, reaches no structural write (calls to shadowed names raise first); exception.frozen always raises XGIError; subhypergraph freezes what it returns; is_frozen/copy have the required shape. New methods are included automatically.",
+        technique="static analysis: interprocedural may-write analysis with the receiver marked frozen (freeze-list completeness), dominance of freeze() in subhypergraph; class-level method aliases and factory closures modelled as methods",
+        text="Decides that every public method of the three classes not shadowed by freeze(), and every public library function handed a frozen network, reaches no structural write (calls to shadowed names raise first); exception.frozen always raises XGIError; subhypergraph freezes what it returns; is_frozen/copy have the required shape. New methods are included automatically. Methods created by class-level assignment (aliases, closures returned by a factory) are analysed as methods that bypass instance-level shadows.",
         ref="3 C18",
     ),
     "C19": dict(
-        technique="static analysis: step identification by effect footprint and ordering/guard checks on the CFG of the cleanup methods and convert_labels_to_integers, transfer completeness of << and dual, encoding agreement in complement, None-vs-truthiness lint for selections",
-        text="Narrow: decides the sequencing of cleanup (relabelling last, singleton removal before isolate removal), one flag per step with documented polarity, copy semantics of in_place, and that relabelling records old labels after re-insertion from zip(view, range) (or puts them into the re-inserted attribute dicts with the label applied last); that << and dual transfer nodes, edges and network attributes of their operands; that the two key encodings compared by complement() have the same canonical form; that optional selections of subhypergraph are defaulted by `is None`, not by truthiness. Set-theoretic results of derived networks are NOT decided.",
+        technique="static analysis: step identification by effect footprint and ordering/guard checks on the CFG of the cleanup methods and convert_labels_to_integers, transfer completeness of << and dual, encoding agreement in complement, None-vs-truthiness lint for selections; definition of both modes of largest_connected_hypergraph by the one selected component",
+        text="Narrow: decides the sequencing of cleanup (relabelling last, singleton removal before isolate removal), one flag per step with documented polarity, copy semantics of in_place, and that relabelling records old labels after re-insertion from zip(view, range) (or puts them into the re-inserted attribute dicts with the label applied last); that << and dual transfer nodes, edges and network attributes of their operands; that the two key encodings compared by complement() have the same canonical form; that optional selections of subhypergraph are defaulted by `is None`, not by truthiness. Set-theoretic results of derived networks are NOT decided. largest_connected_hypergraph: the copy is subhypergraph(nodes=<selected component>) and the in-place mode removes exactly its complement (Q-LCC).",
         ref="3 C19",
     ),
     "C20": dict(
-        technique="static analysis: ID/position kind inference over layout and drawing code, key provenance of layout dicts, guarded-range-division lint, step order on the CFG of draw_simplices, canonical-identity lint for faces, hull-mode reaching definitions of polygon vertices, structural-parameter forwarding between draw functions, dead-parameter liveness analysis",
-        text="Narrow: decides that positions are addressed by label and arrays by position in the layout/drawing functions the property names, that every layout's keys come from the node view (edge positions from the edge view; dicts filled in loops are checked store by store), that a rescaling that divides by a max-min range handles the constant input, that draw_simplices cuts to max_order before taking maximal simplices, that faces are never de-duplicated by raw combination tuples, that outside hull mode a polygon's vertex array is not selected through a convex hull, that draw functions pass pos/ax/max_order/hull/radius on to the sibling draw functions they delegate to, and that every parameter of every layout is live. Rendered geometry is NOT decided.",
+        technique="static analysis: ID/position kind inference over layout and drawing code, key provenance of layout dicts, guarded-range-division lint, step order on the CFG of draw_simplices, canonical-identity lint for faces, hull-mode reaching definitions of polygon vertices, structural-parameter forwarding between draw functions, dead-parameter liveness analysis; order provenance of index maps (L-IDX)",
+        text="Narrow: decides that positions are addressed by label and arrays by position in the layout/drawing functions the property names, that every layout's keys come from the node view (edge positions from the edge view; dicts filled in loops are checked store by store), that a rescaling that divides by a max-min range handles the constant input, that draw_simplices cuts to max_order before taking maximal simplices, that faces are never de-duplicated by raw combination tuples, that outside hull mode a polygon's vertex array is not selected through a convex hull, that draw functions pass pos/ax/max_order/hull/radius on to the sibling draw functions they delegate to, and that every parameter of every layout is live. Rendered geometry is NOT decided. A position map numbering the node view is never applied to an array stacked in another order (L-IDX).",
         ref="3 C20",
     ),
 }
